@@ -21,6 +21,7 @@ RULE = ('Runnable, terminating, deterministic programs from vf.gen.runnable (kin
         'minified module (default options; more option sets in the thorough tier) and results / exception classes must agree. '
         'Non-trivial: the original printed something or left a public namespace, and minify(P,O) differs from the all-off printing of P. '
         'Distinct = sha256(source, option set).')
+RULE += ' Also generated: class attributes and methods spelled like variables/functions of the enclosing scope that methods read by the bare name, float and complex literals shown with repr and used in type-sensitive operations, string statements behind removable statements.'
 ASSUMPTIONS = ['both runs happen in-process in fresh namespaces under a 2 s timer; a timeout is inconclusive, never a violation',
                'programs avoid the documented reflective views (names of locals, annotations, line numbers, reprs of functions/classes)']
 
